@@ -1,9 +1,7 @@
 #!/bin/bash
 # Builds the simulator test binaries from /repo's current working tree (tag verif) with the
 # harness sources in /verif/sim overlaid as the virtual package fhirpath/verifsim.
-# usage: build_sim.sh [plain|race|both|instr|all]
-#   instr: additionally rewrites the library sources (copies, via the overlay) so that a yield
-#          point precedes every statement touching process-wide state (tools/instrument)
+# usage: build_sim.sh [plain|race|both|all]     (instr = plain: kept for old command lines)
 set -euo pipefail
 export GOFLAGS=-mod=mod GOPROXY=off GOSUMDB=off GOTOOLCHAIN=local
 V=$(cd "$(dirname "$0")" && pwd)
@@ -22,14 +20,26 @@ json.dump({'Replace':rep},open(os.path.join(b,'overlay.json'),'w'),indent=1)
 PY
 what=${1:-both}
 cd "$R"
-if [ "$what" = plain ] || [ "$what" = both ] || [ "$what" = all ]; then
-  go1.26.8 test -c -vet=off -tags verif -overlay="$B/overlay.json" -o "$B/sim.test" ./fhirpath/verifsim/
+# Every binary compiles rewritten copies of the library sources (tools/instrument, reached
+# through the overlay; nothing is written into the repository): a call to a hook before every
+# statement touching process-wide state (a yield point only in runs that ask for it, worker
+# flag -gyields: the "instr" pass of C04), lock-depth tracking (a task is never parked while
+# library code of its operation holds a lock), and goroutines / blocking operations of the
+# library handed to the simulator's scheduler. If the rewritten sources do not compile (the
+# rewriter is syntactic) the binary is built from the sources as they are.
+(cd "$V/tools/instrument" && go1.26.8 build -o "$B/instrument" .)
+"$B/instrument" -repo "$R" -out "$B/instr" -overlay-in "$B/overlay.json" -overlay-out "$B/overlay_instr.json"
+compile() { # compile <output> [extra go flags]
+  local out=$1; shift
+  if ! go1.26.8 test -c "$@" -vet=off -tags verif -overlay="$B/overlay_instr.json" -o "$out" ./fhirpath/verifsim/ 2>"$B/instr_build.err"; then
+    echo "build_sim: the rewritten sources do not compile; building $out from the sources as they are:" >&2
+    head -5 "$B/instr_build.err" >&2
+    go1.26.8 test -c "$@" -vet=off -tags verif -overlay="$B/overlay.json" -o "$out" ./fhirpath/verifsim/
+  fi
+}
+if [ "$what" = plain ] || [ "$what" = both ] || [ "$what" = all ] || [ "$what" = instr ]; then
+  compile "$B/sim.test"
 fi
 if [ "$what" = race ] || [ "$what" = both ] || [ "$what" = all ]; then
-  go1.26.8 test -c -race -vet=off -tags verif -overlay="$B/overlay.json" -o "$B/sim.race.test" ./fhirpath/verifsim/
-fi
-if [ "$what" = instr ] || [ "$what" = all ]; then
-  (cd "$V/tools/instrument" && go1.26.8 build -o "$B/instrument" .)
-  "$B/instrument" -repo "$R" -out "$B/instr" -overlay-in "$B/overlay.json" -overlay-out "$B/overlay_instr.json"
-  go1.26.8 test -c -vet=off -tags verif -overlay="$B/overlay_instr.json" -o "$B/sim.instr.test" ./fhirpath/verifsim/
+  compile "$B/sim.race.test" -race
 fi
